@@ -234,7 +234,7 @@ func runCsv(e *hx.Env, m *hx.Model, c csvCase) {
 		for i := range la {
 			if la[i] != lb[i] {
 				key := "csv/row"
-				if strings.Contains(la[i], `\r\n`) && strings.ReplaceAll(la[i], `\r\n`, `\n`) == strings.ReplaceAll(lb[i], `\r\n`, `\n`) {
+				if strings.Contains(la[i], `\r\n`) && strings.ReplaceAll(la[i], `\r\n`, `\n`) == lb[i] {
 					key = "csv/crlf-normalised"
 				}
 				e.Rep.Violate(key, fmt.Sprintf("row differs after CSV dump+import:\n%s\n---\n%s", qx.Short(la[i], 400), qx.Short(lb[i], 400)), c)
